@@ -254,3 +254,36 @@ Example C20_example_hip :
   /\ wf_abs (parse "/w/in.txt") = true
   /\ hip_status (hip_script (fun p => if String.eqb p "/w/in.txt" then HOk "r" else HFail) "/w" "/pkg" "in.txt" (Some "/w/o.out") true) = 1%Z.
 Proof. vm_compute. repeat split; reflexivity. Qed.
+
+(* ================= which file a Model reads; histories of client calls ================= *)
+
+(* Model(input_file=A) reads A whatever the hosting process has in sys.argv; sys.argv[1] is only the fall-back *)
+Theorem C20_keyword_input_wins : forall (a : string) (argv : list string),
+  model_input_source (Some a) argv = Some a /\ model_input_source None argv = nth_error argv 1.
+Proof. exact keyword_input_wins. Qed.
+Print Assumptions C20_keyword_input_wins.
+
+(* for EVERY history of client calls in one process (successes, exceptions, bare sys.exit() in any order) the working
+   directory after each call is the one before it, and each call gives exactly what it gives when made alone - so the
+   agreement of the entry points (C20_entry_points_agree, C20_input_file_agrees) survives any history *)
+Theorem C20_client_history : forall (run : string -> sim) (pkg cwd : string) (qs : list creq),
+  history (client_step run) pkg cwd qs
+  = map (fun q => (cwd, client run cwd pkg (q_inp q) (q_out q) (q_text q))) qs.
+Proof. exact history_independent. Qed.
+Print Assumptions C20_client_history.
+
+(* a client that restores the directory only after a successful main() does not: after one failing call the process
+   sits in the package directory and the next relative input path names another file *)
+Theorem C20_client_history_leaky_refuted :
+  exists (run : string -> sim) pkg cwd q1 q2,
+    map fst (history (client_step_leaky run) pkg cwd [q1; q2]) = [pkg; pkg] /\ pkg <> cwd
+    /\ input_file pkg (client_argv pkg (q_inp q2) (q_out q2)) <> input_file pkg (client_argv cwd (q_inp q2) (q_out q2)).
+Proof. exact history_leaky_counterexample. Qed.
+Print Assumptions C20_client_history_leaky_refuted.
+
+Example C20_example_history :
+  map fst (history (client_step sim_of_text) "/pkg" "/w"
+             [{| q_inp := "a"; q_out := "/o"; q_text := "fail" |}; {| q_inp := "b"; q_out := "/o"; q_text := "abort" |};
+              {| q_inp := "c"; q_out := "/o"; q_text := "ok" |}]) = ["/w"; "/w"; "/w"]
+  /\ model_input_source (Some "/w/A.txt") [""; "/w/B.txt"; "/w/o.out"] = Some "/w/A.txt".
+Proof. vm_compute. split; reflexivity. Qed.
